@@ -69,6 +69,7 @@ def _universe(tier):
         "DC(x=[0])", "DC(x=[0, 1], y=1)", "[DC(x=1)]", "[DC(x=1), DC(x=2, y=2)]", "{'k0': DC(x=1)}", "DC(x=DC(x=1))",
         "AT(a=[1])", "[AT(a=1)]", "PM(a={'k0': 1})", "[PM(a=1)]", "NT(a=[1], b=2)", "[NT(a=1, b=2)]",
         "defaultdict(list, {'a': [1], 'b': []})", "[Opaque(1)]", "{'k0': Opaque(2)}", "Opaque(2)", "[Color.RED, Color.GREEN]",
+        "DCS(x=1)", "DCS(x=1, y=2)", "DCX(x=1)", "DCX(x=1, w=3)", "[DCS(x=1)]", "ATS(a=1)", "PMS(a=1)", "NTS(a=1, b=2)", "{'k0': DCX(x=1, y=2)}",
         "[Perm.R | Perm.W, Perm(0)]", "[1.5, -1, 2**64]", "['a\\nb', ' a ']", "{(0, 1): 'a'}", "{Color.RED: 0}",
     )]
     u = G._dedup(list(G.A_FULL) + extra)
